@@ -38,7 +38,7 @@ fn total_case(b: &[u8]) {
 fn schedule_case<F: Family>(b: &[u8], l: &mut Lcg) {
     eprintln!("MIRI-CASE schedule{} {}", if F::FAM == mqv::model::Fam::V3 { 3 } else { 5 }, hex(b));
     let one = fam::dec_poll::<F>(b);
-    for mode in 0..3 {
+    for mode in 0..4 {
         let steps: Vec<Step> = (0..b.len() * 2 + 2)
             .map(|i| match mode {
                 0 => Step::Chunk(1 + (l.next() % 5) as usize),
@@ -51,7 +51,7 @@ fn schedule_case<F: Family>(b: &[u8], l: &mut Lcg) {
                 }
             })
             .collect();
-        let run = fam::dec_poll_scripted::<F>(b, &steps, if mode == 2 { u64::MAX } else { 0 }, None, false);
+        let run = fam::dec_poll_styled::<F>(b, &steps, if mode >= 2 { u64::MAX } else { 0 }, None, false, if mode == 3 { 3 } else { (mode & 1) as u8 });
         if run.result != one.result {
             fail("schedule", b, "scheduled run differs from the one-shot run");
         }
